@@ -416,11 +416,20 @@ func c05FuncMap(w *World, r *Report) {
 	}
 	g := FullGraph(fm)
 	deleted := map[string][]ssa.Instruction{}
+	var loopSkips []Edge // zero-iteration exits of loops over constant tables
 	var txt ssa.Instruction
 	for _, c := range callInstrs(fm) {
 		if bi, ok := c.Common().Value.(*ssa.Builtin); ok && bi.Name() == "delete" {
 			if k, ok := constString(unwrapIface(c.Common().Args[1])); ok {
 				deleted[k] = append(deleted[k], c)
+			} else if cr, ok := constRangeOf(w, unwrapIface(c.Common().Args[1])); ok {
+				// table-driven: for _, name := range []string{…} { delete(f, name) }
+				if ex, _ := g.PathExists(IPos{cr.Header.Succs[0], -1}, IPos{cr.Header, 0}, avoidInstrs(c)); !ex {
+					for _, k := range cr.Elems {
+						deleted[k] = append(deleted[k], c)
+					}
+					loopSkips = append(loopSkips, cr.Skip)
+				}
 			}
 		}
 		if f, _ := calleeOf(c.Common()); f != nil && fnPkgPath(f) == sprigPkg {
@@ -450,7 +459,7 @@ func c05FuncMap(w *World, r *Report) {
 		ok := len(deleted[k]) > 0
 		if ok {
 			for _, rp := range g.classifyReturns() {
-				if ex, _ := g.PathExists(posOf(txt), retPos(rp), avoidInstrs(deleted[k]...)); ex {
+				if ex, _ := g.PathExists(posOf(txt), retPos(rp), avoidInstrs(deleted[k]...).withEdges(loopSkips...)); ex {
 					ok = false
 				}
 			}
